@@ -960,6 +960,83 @@ example :
   rw [history_called_once hist _ hok 5]
   decide
 
+/-! ## End to end: constructor spec → name-level `subgraph` → node (mini-round) -/
+
+open SubgraphNames SubgraphNamesLemmas in
+/-- **One-body constructors, end to end.** For any constructor with one callback `nm` whose type expression
+    evaluates to `types`, and a callback returning any list `outs` of Vars: the *whole* result of the constructor
+    call — node and world — is determined by the name-level tail of `subgraph` (`subgraphTail`: arguments through
+    the `in{i}` dict, results through the `out{i}` dict): the event's arguments and types are the tail's, the
+    stored graph's arguments are the ids the callback received, and `out_variadic` is the length of the results
+    dict minus `k`. -/
+theorem single_body_end_to_end (nm : String) (e : ListExpr) (k : Int) (env : Env) (cbs : Callbacks) (w : World)
+    (types : List Ty) (he : evalList env e = .ok types) (outs : List Nat)
+    (hb : (cbs nm).2 = .returnsVars outs.length) :
+    let t := subgraphTail types w.fresh (cbs nm).1 outs
+    construct ⟨[(nm, e)], nm, k⟩ env cbs w
+        = (.ok ⟨[(nm, ⟨(cbs nm).1, t.1, t.2.2.results.length⟩)], (t.2.2.results.length : Int) - k⟩,
+           ⟨⟨(cbs nm).1, t.1, t.2.1⟩ :: w.events, w.fresh + types.length⟩)
+      ∧ t.2.1 = types ∧ t.2.2.arguments = t.1 ∧ t.2.2.constructor = (cbs nm).1
+      ∧ t.2.2.results.map (·.2) = outs ∧ t.2.2.results.length = outs.length := by
+  have hr := subgraph_names_refine types (cbs nm).1 outs w
+  have hl : (enumDict "in" types).length = types.length := by rw [enumDict_eq, named_length]
+  have hv : (enumDict "in" types).map (·.2) = types := by rw [enumDict_eq, named_values]
+  have hres := enum_results_positional "out" outs
+  refine ⟨?_, by simp [subgraphTail, hv], hr.2.1, hr.2.2.1, hr.2.2.2, by simp [subgraphTail, hres.1]⟩
+  simp only [construct, runSubgraphs, he, hb, hr.1, lookupGraph, List.find?, beq_self_eq_true, Option.map_some]
+
+/-- **SequenceMap, end to end** (every shipped module; any element type, any additional inputs — sequences or
+    tensors — any returned list): composition of `args_prescribed_sequence_map`'s premises with the name-level
+    refinement. The body's event carries exactly ONNX's prescription, the node has one output per returned Var. -/
+theorem sequence_map_end_to_end {m : String} {s : CtorSpec} (h : (m, "sequence_map", s) ∈ table)
+    (env : Env) (elem : Ty) (extra : List SMOperand)
+    (hs : env.singles "input_sequence" = some (.seq elem))
+    (hl : env.lists "additional_inputs" = extra.map (fun o => some o.ty))
+    (cbs : Callbacks) (outs : List Nat) (hb : (cbs "body").2 = .returnsVars outs.length) (w : World) :
+    ∃ node ins, construct s env cbs w
+        = (.ok node, ⟨⟨(cbs "body").1, ins, seqMapPresc elem extra⟩ :: w.events,
+                      w.fresh + (seqMapPresc elem extra).length⟩)
+      ∧ ins = (SubgraphNames.subgraphTail (seqMapPresc elem extra) w.fresh (cbs "body").1 outs).1
+      ∧ node.outVariadic = outs.length := by
+  have hs' : s = seqMapSpec := by
+    have := spec_of_table h; simpa [accepted] using this
+  subst hs'
+  have h1 := single_body_end_to_end "body" seqMapTypes 0 env cbs w _ (eval_seqMap env elem extra hs hl) outs hb
+  obtain ⟨hc, ht, _, _, _, hn⟩ := h1
+  rw [ht] at hc
+  exact ⟨_, _, hc, rfl, by simp [hn]⟩
+
+/-- **Loop, end to end** (every shipped module; any carried types, any returned list): the body's event carries
+    `(int64[1], bool[1], carried…)` (the known `[1]`-vs-scalar finding, see `args_prescribed_loop_partial`), the
+    node has one output per returned Var minus the condition. -/
+theorem loop_end_to_end {m : String} {s : CtorSpec} (h : (m, "loop", s) ∈ table)
+    (env : Env) (carried : List Ty) (hl : env.lists "v_initial" = carried.map some)
+    (cbs : Callbacks) (outs : List Nat) (hb : (cbs "body").2 = .returnsVars outs.length) (w : World) :
+    ∃ node ins, construct s env cbs w
+        = (.ok node, ⟨⟨(cbs "body").1, ins, loopPrescWith (some [.n 1]) carried⟩ :: w.events,
+                      w.fresh + (loopPrescWith (some [.n 1]) carried).length⟩)
+      ∧ ins = (SubgraphNames.subgraphTail (loopPrescWith (some [.n 1]) carried) w.fresh (cbs "body").1 outs).1
+      ∧ node.outVariadic = (outs.length : Int) - 1 := by
+  have hs' : s = loopSpecWith (some [.n 1]) := by
+    have := spec_of_table h; simpa [accepted] using this
+  subst hs'
+  have h1 := single_body_end_to_end "body" (loopTypes (some [.n 1])) 1 env cbs w _
+    (eval_loop env (some [.n 1]) carried hl) outs hb
+  obtain ⟨hc, ht, _, _, _, hn⟩ := h1
+  rw [ht] at hc
+  exact ⟨_, _, hc, rfl, by simp [hn]⟩
+
+/-- Non-vacuity: `v17_sequence_map` with a sequence and a tensor extra, body returning 3 Vars (one repeated). -/
+example :
+    let env := envOf [("additional_inputs", [some (.seq (f32 [2]).ty), some (f32 [4]).ty])]
+      [("input_sequence", some (.seq (f32 [7]).ty))] []
+    let cbs : Callbacks := fun _ => (4, .returnsVars 3)
+    let r := construct v17_sequence_map env cbs ⟨[], 10⟩
+    r.1.toOption.map (·.outVariadic) = some 3
+      ∧ r.2.events.map (fun e => (e.args, e.types)) = [([10, 11, 12], [(f32 [7]).ty, (f32 [2]).ty, (f32 [4]).ty])]
+      ∧ (SubgraphNames.subgraphTail [(f32 [7]).ty, (f32 [2]).ty, (f32 [4]).ty] 10 4 [12, 10, 12]).1 = [10, 11, 12] := by
+  decide
+
 /-! ## Non-vacuity -/
 
 /-- Scan, two states and one scan input, rank ≥ 1 state: the hypotheses of
